@@ -352,7 +352,7 @@ func (c *ctx) trieSection(r *lib.RNG, out chan<- batch) {
 		}
 	}
 	// 3. height 251: shared-prefix families, extremes; honest + every corruption, real verifiers
-	n251 := c.f.Scale(90, 1500)
+	n251 := c.f.Scale(72, 1500)
 	for i := 0; i < n251; i++ {
 		var n int
 		switch r.Intn(6) {
